@@ -390,6 +390,8 @@ def check(scenario, w, st, res, exp_in, exp_out, ids, k=0, top=None):
     res.state_sigs = list(res.state_sigs or []) + [
         (scenario['threshold'], scenario['cipher'], top.get('variant'), k)]
     ob()
+    if sim.end_state == 'inconclusive':
+        return
     if sim.end_state != 'done':
         V.append(('C01/%s' % sim.end_state, repr(sim.end_detail)))
         return
